@@ -130,7 +130,7 @@ def optAtomOk (s : Style) : Option Atom → Bool
 mutual
 /-- every atom of the tree is closed (for the text it has in style `s` at this indentation) -/
 def nodeOk (q : WQuirks) (s : Style) (indent : Nat) : Node → Bool
-  | .comment text => text.head? = some 35 || cmtOk (commentText q s indent text)
+  | .comment text => skipComment text || cmtOk (commentText q s indent text)
   | .import_ a => atomOk (a.get s)
   | .prop name value => atomOk name && atomOk (value.get s)
   | .custom name value _ => atomOk name && atomOk value
@@ -142,7 +142,7 @@ def nodeOk (q : WQuirks) (s : Style) (indent : Nat) : Node → Bool
   | .atBlock name args body =>
     atomOk name && optAtomOk s args &&
       (match singleComment body with
-       | some c => c.head? = some 35 || cmtOk (commentText q s indent c)
+       | some c => skipComment c || cmtOk (commentText q s indent c)
        | none => nodesOk q s (indent + 2) body)
   | .separator => true
 def nodesOk (q : WQuirks) (s : Style) (indent : Nat) : Nodes → Bool
